@@ -29,8 +29,11 @@ impl<const BUFFER_SIZE: usize> AtomicMove<BUFFER_SIZE> {
     /// representation invariant (DESIGN §3.1); the capacity is any value in 2..=2^30 here (the power-of-two requirement matters only for index = id % N across the wrap: lemmas below); at 2^31 `len as i32` in consume_leaking_internal turns negative for a full queue -- an observation recorded in DESIGN, outside any realistic configuration
     pub open spec fn inv(&self) -> bool {
         &&& 2 <= BUFFER_SIZE <= 0x4000_0000
-        &&& self.len() + self.resv() <= BUFFER_SIZE
-        &&& self.taken() <= self.len()
+        &&& self.len() <= BUFFER_SIZE
+        // transient OVERSHOOT is part of the state space: producers that found the ring full (resp. consumers that found it empty) have
+        // incremented enqueuer_tail (dequeuer_head) optimistically and not receded yet -- up to 4096 of them at once (ASSUMED bound)
+        &&& self.len() + self.resv() <= BUFFER_SIZE + 0x1000
+        &&& self.taken() <= self.len() + 0x1000
     }
     pub open spec fn same_but_enqueuer_tail(&self, o: &Self) -> bool { self.head == o.head && self.tail == o.tail && self.dequeuer_head == o.dequeuer_head }
     pub open spec fn same_but_dequeuer_head(&self, o: &Self) -> bool { self.head == o.head && self.tail == o.tail && self.enqueuer_tail == o.enqueuer_tail }
@@ -119,12 +122,13 @@ FNS = [
        rules=[MUTBUF,
               Rule("R6-slot-index", r"let slot_value = unsafe \{ mutable_buffer\.get_unchecked_mut\(([^()]*)\) \};", r"let slot_value = Self::slot_at(\1);", count=1, note="slot reference -> index (bound obligation)"),
               Rule("R8-break-value", r"break Some\( \(slot_value, slot_id, len_before\) \)", "return Some( (slot_value, slot_id, len_before) );", count=1)],
-       requires="old(self).inv(), old(self).taken() == 0, forall|r: bool| report_empty_fn.ensures((), r) ==> !r, report_empty_fn.requires(())",
-       ensures="final(self).inv(), final(self).same_but_dequeuer_head(old(self)),"
-               "old(self).len() > 0 ==> (r matches Some((idx, id, len_before)) && id == old(self).head@ && idx == id as usize % BUFFER_SIZE && len_before as int == old(self).len()"
-               "   && final(self).dequeuer_head@ == old(self).dequeuer_head@.wrapping_add(1)),"
-               "old(self).len() == 0 ==> r is None && final(self).dequeuer_head == old(self).dequeuer_head",
-       loops={0: "invariant old(self).inv(), old(self).taken() == 0, self.same_but_dequeuer_head(old(self)), self.dequeuer_head@ == old(self).dequeuer_head@.wrapping_add(1), slot_id == old(self).dequeuer_head@,"
+       hints=[(r"len_before = tail\.overflowing_sub\(slot_id\)\.0 as i32;", "proof { let d: u32 = tail.wrapping_sub(slot_id); assert(d >= 0x8000_0000u32 ==> (d as i32) < 0i32) by(bit_vector); assert(d < 0x8000_0000u32 ==> (d as i32) >= 0i32 && (d as i32) as u32 == d) by(bit_vector); }")],
+       requires="old(self).inv(), forall|r: bool| report_empty_fn.ensures((), r) ==> !r, report_empty_fn.requires(())",
+       ensures="final(self).same_but_dequeuer_head(old(self)),"
+               "old(self).len() - old(self).taken() > 0 ==> (r matches Some((idx, id, len_before)) && id == old(self).dequeuer_head@ && idx == id as usize % BUFFER_SIZE"
+               "   && len_before as int == old(self).len() - old(self).taken() && final(self).dequeuer_head@ == old(self).dequeuer_head@.wrapping_add(1)),"
+               "old(self).len() - old(self).taken() <= 0 ==> r is None && final(self).dequeuer_head == old(self).dequeuer_head",
+       loops={0: "invariant old(self).inv(), self.same_but_dequeuer_head(old(self)), self.dequeuer_head@ == old(self).dequeuer_head@.wrapping_add(1), slot_id == old(self).dequeuer_head@,"
                  " forall|r: bool| report_empty_fn.ensures((), r) ==> !r, report_empty_fn.requires(()),"}),
 ]
 
